@@ -54,6 +54,7 @@ inductive DPc | loop | sel | recv | spawn (i : Nat) | unpool | wait | closeColl 
   deriving DecidableEq, Repr
 inductive MPc | idle | run (sc : List UAct) | send (v : Nat) (sc : List UAct) | cdrain (sc : List UAct)
   | recovered | pwrite | psend | wgdone | unpool | done
+  | crash   -- send on the closed collector: proven unreachable (`Props.collector_open_while_mappers_run`)
   deriving DecidableEq, Repr
 inductive RPc | run (sc : List UAct) | send (v : Nat) (sc : List UAct) | cdrain (sc : List UAct)
   | drain (p : Option PVal) | pwrite (p : PVal) | psend (p : PVal) | finish | done
@@ -156,7 +157,7 @@ def stepMapper (c : Cfg) (s : St) (i : Nat) : Option St :=
   | .run (.readOne :: sc) => some { s with mp := upd s.mp i (.run sc) }
   | .run (.readAll :: sc) => some { s with mp := upd s.mp i (.run sc) }
   | .send v sc =>
-    if s.collClosed then some { s with mp := upd s.mp i .recovered }
+    if s.collClosed then some { s with mp := upd s.mp i .crash }
     else if s.collQ.length < c.workers then
       some { s with collQ := s.collQ ++ [v], sent := s.sent ++ [v], mp := upd s.mp i (.run sc) }
     else none
@@ -173,6 +174,7 @@ def stepMapper (c : Cfg) (s : St) (i : Nat) : Option St :=
   | .wgdone => some { s with wg := s.wg - 1, mp := upd s.mp i .unpool }
   | .unpool => some { s with pool := s.pool - 1, mp := upd s.mp i .done }
   | .done => none
+  | .crash => none
 
 def stepRed (c : Cfg) (s : St) : Option St :=
   match s.rpc with
